@@ -53,11 +53,11 @@ Proof.
     inversion H as [|? ? Hc Hl]; subst. rewrite lower_list_cons. rewrite Hc, (IH Hl). reflexivity.
 Qed.
 
-Lemma lower_cmd_loud : forall c nest ps, cmd_loud (fst (lower_cmd nest ps c)) = cmd_loud c.
+Lemma lower_cmd_loud : forall c own nest ps, cmd_loud_for own (fst (lower_cmd nest ps c)) = cmd_loud_for own c.
 Proof.
-  induction c using cmd_ind'; intros nest ps; try reflexivity.
+  induction c using cmd_ind'; intros own nest ps; try reflexivity.
   - cbn [lower_cmd]. destruct (lower_unsub ps k); reflexivity.
-  - rewrite lower_batch_eq. destruct (Nat.ltb nest max_batch_nest); [|reflexivity]. cbn [fst cmd_loud].
+  - rewrite lower_batch_eq. destruct (Nat.ltb nest max_batch_nest); [|reflexivity]. cbn [fst cmd_loud_for].
     revert ps. induction l as [|c l IH]; intros ps; [reflexivity|].
     inversion H as [|? ? Hc Hl]; subst. rewrite lower_list_cons. cbn [forallb]. rewrite Hc, (IH Hl). reflexivity.
 Qed.
@@ -121,30 +121,15 @@ Proof.
   cbn [lower_run run_budget]. now rewrite lower_event_budget, IH.
 Qed.
 
-Lemma lower_event_ok : forall pw ev, ev_ok ev -> ev_ok (fst (lower_event pw ev)).
+Lemma lower_event_ok : forall pw o ev, ev_ok o ev -> ev_ok o (fst (lower_event pw ev)).
 Proof.
-  intros pw [s h n|s|s c] Hok; cbn [lower_event].
+  intros pw o [s h n|s|s c] Hok; cbn [lower_event].
   - destruct (get_session (w_srv (pw_world pw)) s); exact Hok.
   - exact Hok.
   - destruct (get_session (w_srv (pw_world pw)) s); [|exact Hok].
-    pose proof (lower_cmd_loud c 0 (pt_get (pw_params pw) s)) as H1.
+    pose proof (lower_cmd_loud c (N.eqb s o) 0 (pt_get (pw_params pw) s)) as H1.
     pose proof (lower_cmd_depth c 0 (pt_get (pw_params pw) s)) as H2.
     destruct (lower_cmd 0 (pt_get (pw_params pw) s) c) as [c' ps']. cbn [fst ev_ok] in *. now rewrite H1, H2.
-Qed.
-
-Lemma lower_event_clean : forall pw o ev, ev_clean o ev -> ev_clean o (fst (lower_event pw ev)).
-Proof.
-  intros pw o [s h n|s|s c] Hcl; cbn [lower_event].
-  - destruct (get_session (w_srv (pw_world pw)) s); exact Hcl.
-  - exact Hcl.
-  - destruct (get_session (w_srv (pw_world pw)) s); [|exact Hcl].
-    pose proof (lower_cmd_plain c 0 (pt_get (pw_params pw) s)) as H1.
-    pose proof (lower_cmd_subs_ok c 0 (pt_get (pw_params pw) s)) as H2.
-    pose proof (fun subs => lower_unsub_shape 0 (pt_get (pw_params pw) s) subs) as H3.
-    destruct (lower_cmd 0 (pt_get (pw_params pw) s) c) as [c' ps'] eqn:E. cbn [fst ev_clean] in *.
-    intros Eo. destruct (Hcl Eo) as [Hs Hp]. split; [now apply H2|].
-    destruct Hp as [Hp|[subs Hu]]; [left; now rewrite H1|right].
-    subst c. destruct (H3 subs) as [l Hl]. rewrite E in Hl. cbn [fst] in Hl. now exists l.
 Qed.
 
 (* the condition on arrivals (fresh session directories), read along the run on the wire *)
@@ -174,21 +159,30 @@ Proof.
   rewrite <- pworld_step_world. now apply IH.
 Qed.
 
-Lemma lower_run_ok : forall evs pw, Forall ev_ok evs -> Forall ev_ok (lower_run fx pw evs).
+Lemma lower_run_ok : forall evs pw o, Forall (ev_ok o) evs -> Forall (ev_ok o) (lower_run fx pw evs).
 Proof.
-  induction evs as [|ev evs IH]; intros pw H; [constructor|].
+  induction evs as [|ev evs IH]; intros pw o H; [constructor|].
   inversion H; subst. cbn [lower_run]. constructor; [now apply lower_event_ok|now apply IH].
 Qed.
 
-Lemma lower_run_clean : forall evs pw o, Forall (ev_clean o) evs -> Forall (ev_clean o) (lower_run fx pw evs).
+(* the condition on the observer's own commands (ev_clean), read along the run on the wire: it is about what Server.v
+   executes, i.e. about the lowered commands (a REMOVEPARAMETERS keeps the names that are parameters) *)
+Fixpoint clean_prun (o : sid) (pw : pworld) (evs : list event) : Prop :=
+  match evs with
+  | [] => True
+  | ev :: r => ev_clean o (pw_world pw) (fst (lower_event pw ev)) /\ clean_prun o (pworld_step fx pw ev) r
+  end.
+
+Lemma clean_prun_lower : forall evs pw o, clean_prun o pw evs -> clean_wrun fx o (pw_world pw) (lower_run fx pw evs).
 Proof.
-  induction evs as [|ev evs IH]; intros pw o H; [constructor|].
-  inversion H; subst. cbn [lower_run]. constructor; [now apply lower_event_clean|now apply IH].
+  induction evs as [|ev evs IH]; intros pw o H; [exact I|].
+  destruct H as [H1 H2]. cbn [lower_run clean_wrun]. split; [exact H1|].
+  rewrite <- pworld_step_world. now apply IH.
 Qed.
 
 (* mirror_converges_partial for histories as they are on the wire: REMOVEPARAMETERS works on parameter names *)
 Theorem mirror_converges_wire : forall evs o,
-  wf_prun empty_pworld evs -> Forall ev_ok evs -> Forall (ev_clean o) evs -> small (run_budget evs) ->
+  wf_prun empty_pworld evs -> Forall (ev_ok o) evs -> clean_prun o empty_pworld evs -> small (run_budget evs) ->
   let w := pw_world (pworld_run fx evs empty_pworld) in
   forall c ss, In c (w_clients w) -> c_id c = o -> get_session (w_srv w) o = Some ss ->
   forall q, own_node ss q = false ->
@@ -198,7 +192,7 @@ Proof.
   apply (mirror_converges_partial fx guard_on overlap_on push_on).
   - apply (wf_prun_lower evs empty_pworld Hwf).
   - now apply lower_run_ok.
-  - now apply lower_run_clean.
+  - apply (clean_prun_lower evs empty_pworld o Hcl).
   - now rewrite lower_run_budget.
 Qed.
 
